@@ -281,7 +281,9 @@ class SmpteTimeCode(_HHMMSSTimeExpression):
     if frame_rate is None:
       raise ValueError("Cannot compute SMPTE time code from seconds without frame rate")
 
-    frames = seconds * float(frame_rate)
+    # rational and integer offsets are multiplied exactly so that an offset that lies
+    # on a frame boundary is never truncated to the previous frame
+    frames = seconds * (float(frame_rate) if isinstance(seconds, float) else frame_rate)
 
     return SmpteTimeCode.from_frames(int(frames), frame_rate)
 
